@@ -56,7 +56,7 @@ class TornFileIO(io.FileIO):
 
 def build_plan(choice: Choice, tier):
     d = choice.draw
-    thorough = tier == "thorough"
+    thorough = tier == "thorough" or d(8, "large.sizes") == 7
     p = {}
     p["writers"] = 1 + d(3, "writers")
     p["readers"] = d(3, "readers")
